@@ -58,10 +58,13 @@ def vec(v):
 
 
 def gcase(c):
-    return "(mkGCase %s %s %s %d %s %s %s %d %s %s %s %s %s %s)" % (
+    def tab3(t):
+        return E.lst(E.lst(vec(q) for q in e) for e in t)
+    return "(mkGCase %s %s %s %d %s %s %s %d %s %s %s %s %s %s %s %s %s %s)" % (
         E.griddata(c["grid"]), gx(c["gx"]), E.spdata(c["space"]), c["kind"], E.rule(c["rule"]), vec(c["coef"]),
         E.lst(E.lst(vec(q) for q in e) for e in c["ftab"]), c["nvert"], vec(c["proj"]), vec(c["int"]),
-        E.lst(vec(r) for r in c["centers"]), E.lst(vec(r) for r in c["vertices"]), E.dyc(c["third"]), E.dyc(c["tol"]))
+        E.lst(vec(r) for r in c["centers"]), E.lst(vec(r) for r in c["vertices"]), E.dyc(c["third"]),
+        tab3(c["fdata_re"]), vec(c["projv_re"]), tab3(c["fdata_im"]), vec(c["projv_im"]), E.dyc(c["tol"]))
 
 
 def mcase(c):
@@ -94,6 +97,11 @@ def correspond(ctx):
     ctx.search_result = (strength, both["search"])
     for e in res["errors"]:
         ctx.problem("correspondence", "harness could not build a case", json.dumps(e)[:600])
+    for c in res["gridfun"]:
+        if not c.get("projc_re_consistent", True):
+            ctx.corr["disagreements"] += 1
+            ctx.problem("correspondence", "real part of the projections of a complex vectorised callable differs from the "
+                        "projections of the real vectorised callable", json.dumps(c["spec"]))
     # one coqc process (loading Bignums dominates; the evaluation itself takes a few seconds)
     jobs = [(k, res[k]) for k in ("sparse", "gridfun", "mult")]
     h = E.HEADER % "AssemblyA.CorrDense AssemblyA.CorrSparse"
@@ -114,6 +122,9 @@ def correspond(ctx):
         "sparse_cases": len(res["sparse"]), "laplace_beltrami": sum(1 for c in res["sparse"] if c["op"] == 1),
         "sparse_space_pairs": sorted({"%s x %s" % (c["spec"]["test"][0], c["spec"]["trial"][0]) for c in res["sparse"]}),
         "gridfun_cases": len(res["gridfun"]),
+        "gridfun_non_prefix_support_with_non_uniform_areas": sum(
+            1 for c in res["gridfun"] if c["spec"]["non_prefix"] and c["spec"]["areas_differ_from_leading_block"]),
+        "vectorised_projection_tables": sum(1 for c in res["gridfun"] if c["fdata_re"]) * 2,
         "gridfun_kinds": {k: sum(1 for c in res["gridfun"] if c["spec"]["space"][0] == k)
                           for k in sorted({c["spec"]["space"][0] for c in res["gridfun"]})},
         "restricted_support": sum(1 for c in res["sparse"] if c["spec"]["test"][1] or c["spec"]["trial"][1]) +
